@@ -87,6 +87,9 @@ func (w *World) rulesScan(p *Pkg, add func(ok bool, rule, inst string, n ast.Nod
 		// spelled with zero or two ':'; Set must be offered exactly (abv, cutVal)
 		cut            bool
 		cutAbv, cutVal string
+		// v2.0: more elements than the splitter has slots — the rest arrives glued to
+		// the last metric's value; only "not accepted, nothing out of order" is expected
+		long bool
 	}
 	var inputs []input
 	bads := []string{"", "x", ":"}
@@ -108,11 +111,8 @@ func (w *World) rulesScan(p *Pkg, add func(ok bool, rule, inst string, n ast.Nod
 				continue // for the extra prefixes: bad element at the end and just before it
 			}
 			for _, b := range bads {
-				if p.Key == "20" && len(canon)+1 > 14 {
-					continue // beyond the 14 slots the splitter keeps the remainder whole
-				}
 				t := append(append(append([]string(nil), canon[:j]...), b), canon[j:]...)
-				inputs = append(inputs, input{toks: t, bad: j})
+				inputs = append(inputs, input{toks: t, bad: j, long: p.Key == "20" && len(t) > 14})
 			}
 		}
 	}
@@ -141,6 +141,7 @@ func (w *World) rulesScan(p *Pkg, add func(ok bool, rule, inst string, n ast.Nod
 		}
 	}
 	poolN := 14
+	p.scanLongN, p.scanLongBad = 0, ""
 	type rec struct{ abv, val string }
 	nEval, nBad := 0, 0
 	nCut, cutBad := 0, ""
@@ -229,6 +230,31 @@ func (w *World) rulesScan(p *Pkg, add func(ok bool, rule, inst string, n ast.Nod
 		for _, t := range in.toks[:limit] {
 			a, val, _ := strings.Cut(t, ":")
 			want = append(want, rec{a, val})
+		}
+		if in.long {
+			// what must hold whatever the splitter does with the surplus: refused, and
+			// the elements handed on before the refusal are the input's, in order
+			p.scanLongN++
+			bad := ""
+			if accepted {
+				bad = fmt.Sprintf("ParseVector(%q) is accepted although it has %d elements for 14 metrics (element %d is %q)", s, len(in.toks), in.bad, in.toks[in.bad])
+			}
+			for i := range got {
+				if i >= len(want) || got[i] != want[i] {
+					bad = fmt.Sprintf("for the over-long %q the element logic received %v, the elements before the first bad one are %v", s, got, want)
+					break
+				}
+			}
+			if bad != "" {
+				nBad++
+				if firstBad == "" {
+					firstBad = bad
+				}
+				if p.scanLongBad == "" {
+					p.scanLongBad = bad
+				}
+			}
+			continue
 		}
 		if in.cut {
 			// the element reaches Set (its abbreviation is known and in place): with which value?
